@@ -528,6 +528,51 @@ theorem interpolate_uses_current_coordinates (pts : List Pt) (m : Option Method)
       ((ops.foldl ephStep (Eph.new pts m o)).pts.map (·.coord)) date = .ok pt.coord :=
   interpolate_fresh _ date (fresh_reachable pts m o ops) pt h
 
+
+/-! ## `_prev_idx` and the linear method at tabulated abscissae, the LAST one included -/
+
+/-- **`_prev_idx` at a tabulated abscissa** returns the node before it (node 0 for the first abscissa): never the
+last row — so the two-row slice `[prev_idx : prev_idx + 2]` of `_linear` is complete at the last node as well. -/
+theorem prevIdx_at_node (xs : List ℝ) (j : ℕ) (hinc : increasing xs = true) (h2 : 2 ≤ xs.length) (hj : j < xs.length) :
+    prevIdx xs (xs.getD j 0) = some (j - 1) := by
+  have hpw := increasing_pairwise xs hinc
+  have mono : ∀ i j, i ≤ j → j < xs.length → xs.getD i 0 ≤ xs.getD j 0 := by
+    intro i j hij hj
+    rcases Nat.lt_or_eq_of_le hij with h | h
+    · exact le_of_lt (getD_lt_of_pairwise xs hpw i j h hj)
+    · rw [h]
+  obtain ⟨p, hp, hp1, hb0, hb1, hl⟩ :=
+    prevIdx_bracket xs (xs.getD j 0) h2 (mono 0 j (by omega) hj) (mono j _ (by omega) (by omega))
+  rw [hp]
+  congr 1
+  have h1 : j ≤ p + 1 := by
+    by_contra hc
+    have := getD_lt_of_pairwise xs hpw (p + 1) j (by omega) hj
+    linarith
+  rcases hl with hl | hl
+  · omega
+  · have : p < j := by
+      by_contra hc
+      have := mono j p (by omega) (by omega)
+      linarith
+    omega
+
+/-- at the last abscissa `_prev_idx` is `len - 2` -/
+theorem prevIdx_last_node (xs : List ℝ) (hinc : increasing xs = true) (h2 : 2 ≤ xs.length) :
+    prevIdx xs (xs.getD (xs.length - 1) 0) = some (xs.length - 2) := by
+  rw [prevIdx_at_node xs (xs.length - 1) hinc h2 (by omega)]
+  congr 1
+
+/-- **The linear method returns the last point at the last date** (not an error) -/
+theorem interp_linear_last_node (xs : List ℝ) (ys : List (List ℝ)) (o : Option Int) (d : ℕ)
+    (hinc : increasing xs = true) (h2 : 2 ≤ xs.length) (hys : ys.length = xs.length)
+    (hrect : ∀ row ∈ ys, row.length = d) :
+    interp .linear o xs ys (xs.getD (xs.length - 1) 0) = .ok (ys.getD (xs.length - 1) []) :=
+  interp_linear_node_exact xs ys o d (xs.length - 1) hinc h2 hys hrect (by omega)
+
+/-- a table of three abscissae: at the last one `_prev_idx` is 1 (kernel-evaluated through the theorem's hypotheses) -/
+example : increasing [(0 : ℝ), 1, 3] = true ∧ 2 ≤ [(0 : ℝ), 1, 3].length := by simp [increasing]
+
 /-! ## non-vacuity: the hypotheses are met by concrete tables -/
 
 /-- a strictly increasing table of 4 abscissae, order 3 (odd) and an abscissa of the last interval -/
